@@ -1,0 +1,13 @@
+//go:build verif
+
+package xsync
+
+// VerifYield, when set by a verification harness, is called at named interleaving points of
+// lock-free code so that a test can hold a goroutine there. It is nil (and free) otherwise.
+var VerifYield func(point string)
+
+func verifYield(point string) {
+	if f := VerifYield; f != nil {
+		f(point)
+	}
+}
